@@ -101,6 +101,8 @@ func runC09(r *simrt.Run) {
 	}
 	var fresh []*nom.AccountBlock
 	p.OnBlock = func(_ *simnode.Node, b *nom.AccountBlock) { fresh = append(fresh, b) }
+	// one run in three pushes tokens with boundary supplies (2^63 .. 2^255-1) through calls
+	wl.Huge = t.Choose(3) == 0
 	methods := map[string]int{}
 	calls := 0
 
